@@ -566,6 +566,9 @@ func writeEvidence(prop, tier string, seed int, runs []*HarnessRun, knownSeen ma
 		for a := range hr.Assumps {
 			assum[a] = true
 		}
+		for _, a := range reg.Assume[hr.Name] { // harness-specific stubs/assumptions
+			assum[hr.Name+": "+a] = true
+		}
 		for i, s := range hr.Samples {
 			if i < 3 {
 				samples = append(samples, s)
